@@ -168,6 +168,14 @@ theorem gen_read_contained :
     ("Read", "filepath.Rel(filepath.Join(this.conf.homePath, \"logs\"), filepath.Join(filepath.Join(this.conf.homePath, \"logs\"), $1))") ∈ Gen.C17.calls ∧
     ("Read", "os.Open(filepath.Join(filepath.Join(this.conf.homePath, \"logs\"), $1))") ∈ Gen.C17.calls := by decide +kernel
 
+/-- the settings accessor, when the source has one (repair of the unsynchronised settings), is a
+    read-locked copy of `this.conf`, and `SetLevel`/`ApplyConfig` then hold the write lock; on that
+    basis the translator reads `this.settings().f` as `this.conf.f` -/
+theorem gen_settings_accessor :
+    (Gen.C17.settingsAccessor = [] ∨
+     Gen.C17.settingsAccessor = ["this.confLock.RLock()", "defer this.confLock.RUnlock()", "return this.conf"]) ∧
+    Gen.C17.settingsWritersLocked = true := by decide
+
 open Logger.IR
 
 /-! ## interpreted obligations -/
